@@ -172,3 +172,6 @@ def run(chk, replay):
     # Fac(l) = the PRODUCT of the ratios below it per level-0 cell
     from harness import refine
     refine.phase(chk, "plate")
+    # code -> spec at scale: recorded runs on random nested meshes (up to 4 levels, 64 x 64 pixels) judged by CoverTrace.tla
+    from harness import covertrace
+    covertrace.phase(chk, "plate")
